@@ -89,8 +89,11 @@ Definition longest_tau (hx hy hz : hwax) : Q :=
   Qmax_list [tau1 hx; tau2 hx; tau3 hx; tau1 hy; tau2 hy; tau3 hy; tau1 hz; tau2 hz; tau3 hz].
 Definition zpt (hx hy hz : hwax) : Q := longest_tau hx hy hz * zpt_mul / zpt_div.
 (* Python round(): half to even; np.pad rejects negative widths (unreachable for positive taus) *)
-Definition pad1_of (hx hy hz : hwax) (dt : Q) : nat := Z.to_nat (rnd_he (zpt hx hy hz / pad1_div / dt)).
-Definition pad2_of (hx hy hz : hwax) (dt : Q) : nat := Z.to_nat (rnd_he (zpt hx hy hz / pad2_div / dt)).
+(* padK_min is 0 for the plain `round(...)`; a repaired `max(round(...), m)` gives m *)
+Definition pad1_of (hx hy hz : hwax) (dt : Q) : nat :=
+  Nat.max (Z.to_nat (rnd_he (zpt hx hy hz / pad1_div / dt))) pad1_min.
+Definition pad2_of (hx hy hz : hwax) (dt : Q) : nat :=
+  Nat.max (Z.to_nat (rnd_he (zpt hx hy hz / pad2_div / dt))) pad2_min.
 
 (* ---------------------------------------------------------------------------------------------- *)
 (* safe_tau_lowpass (safe_pns_prediction.py:279-286):
